@@ -1,5 +1,5 @@
 import MuscleModel.Pulse.Ops
-import MuscleModel.Pulse.Proofs20
+import MuscleModel.Pulse.Proofs21
 
 /-!
 # C20 — Pulse callbacks fire for every due node and never before their time
@@ -354,7 +354,9 @@ theorem fires_every_due_node (never d k : Nat) (w w' : World) (root t : Nat) (ht
     recalculated") is not formalised.  The finite-height hypothesis is needed as stated (the invariant alone allows an infinite
     descending chain whose aggregate is attained nowhere); it holds in every reachable state (`finite_height_reachable`: preserved
     by every operation and both sweeps with arbitrary scripts, the `isAnc` guard of attach being sound for every depth), so
-    `wakeup_is_min_reachable` needs it no more, and `wakeup_is_min_first_sweep` needs neither it nor `Inv` nor `V`.  Validated on every undisturbed sweep of the correspondence run by the direct oracle. -/
+    `wakeup_is_min_reachable` needs it no more, `wakeup_is_min_first_sweep` needs neither it nor `Inv` nor `V`, and
+    `wakeup_is_min_quiet_history` has NO hypothesis about the state: after any history whose `script` operations queue request-only
+    actions (`gpt` and `pulse` operations included) every sweep from a root reports the exact minimum.  Validated on every undisturbed sweep of the correspondence run by the direct oracle. -/
 theorem wakeup_is_min_partial (never d k : Nat) (w w' : World) (root now m : Nat)
     (h : managerGpt never d (k+1) w root now = some (w', m)) :
     m ≤ (w'.f root).agg ∧
@@ -698,8 +700,11 @@ PROVED:
 * finite support holds in every reachable state (`finite_support_reachable`, `M = opsBound ops`), so in reachable quiet states both sweeps
   terminate for every `d` above the height bound (`sweeps_terminate_reachable`; after a `gpt`-free history with no hypothesis left,
   `sweeps_terminate_first_sweep`).
+* after ANY quiet history (`QuietOps`: the `script` operations queue request-only actions; `gpt` and `pulse` operations included) `Inv`, `V`
+  and the quietness of both queues hold (`inv_v_history_quiet`), so both sweeps terminate with no hypothesis about the state
+  (`sweeps_terminate_quiet_history`).
 STILL MISSING:
-(i) `Inv` and `V` for histories that contain `gpt` operations (they need the discipline verdict, see `wakeup_is_min_reachable`); an explicit
+(i) `Inv` and `V` for histories whose scripts are not quiet and that contain `gpt` operations (they need the discipline verdict); an explicit
     value of the height bound `B` in terms of the history (it exists, `heightLe_of_fsupp`);
 (ii) scripts that are not quiet (attach changes the height function). -/
 
@@ -851,6 +856,200 @@ example : ((runOps 1000 8 40 (World.init 1000)
 
 example : ((runOps 1000 8 40 (World.init 1000) [.attach 1 0, .setReq 1 50, .script true 1 [.inval 1 false]]).bind
       fun w => managerGptC 1000 8 40 w 0 10).map (fun r => (r.2.1, r.2.2)) = some (50, false) := by decide +kernel
+
+/-! ## Quiet histories: no hypothesis about the state is left
+
+`QuietOps ops` = every `script` operation of the history queues request-only actions (`setRequest`).  Everything else is allowed, `gpt`
+and `pulse` operations included (`applyOp` runs `managerGpt` / `managerPulse` only on a node that is a root at that moment and answers
+`notroot` otherwise, so no rootness condition is needed). -/
+
+def QuietOps (ops : List Op) : Prop :=
+  ∀ o ∈ ops, ∀ g c acts, o = Op.script g c acts → ∀ a ∈ acts, Act.target a = none
+
+/-- one operation of a quiet history keeps `Inv`, `V` and the quietness of both script queues -/
+theorem quiet_step (never d k : Nat) (w w' : World) (r : Res) (o : Op)
+    (hQ : Inv never w.f ∧ V w.f ∧ GQuiet w ∧ PQuiet w)
+    (ho : ∀ g c acts, o = Op.script g c acts → ∀ a ∈ acts, Act.target a = none)
+    (h : applyOp never d k w o = some (w', r)) : Inv never w'.f ∧ V w'.f ∧ GQuiet w' ∧ PQuiet w' := by
+  obtain ⟨hi, hv, hg, hp⟩ := hQ
+  cases o with
+  | gpt root now =>
+    simp only [applyOp] at h
+    split at h
+    · cases h; exact ⟨hi, hv, hg, hp⟩
+    · rename_i hnr
+      have hroot : (w.f root).parent = none := by
+        cases hpp : (w.f root).parent with
+        | none => rfl
+        | some q => rw [hpp] at hnr; simp at hnr
+      simp only [Option.map_eq_some_iff] at h
+      obtain ⟨⟨w1, m⟩, hf, he⟩ := h; cases he
+      cases k with
+      | zero => simp [managerGpt, gptAux] at hf
+      | succ k =>
+        simp only [managerGpt] at hf
+        obtain ⟨hc, hg1⟩ := (gptC_complete never d (k+1)).1 w w1 root now never m [] hg hf
+        have hC : managerGptC never d (k+1) w root now = some (w1, m, true) := by simpa [managerGptC] using hc
+        refine ⟨(managerGptC_settles never d k w w1 root now m hC hi hroot).1,
+          (managerGptC_reasks never d k w w1 root now m hC hi hv hroot).1, hg1, ?_⟩
+        intro n acts ha
+        rw [(gpt_pq never d (k+1)).1 w w1 root now never m hf] at ha
+        exact hp n acts ha
+  | pulse root now =>
+    have hng : ∀ r n, Op.pulse root now ≠ .gpt r n := fun _ _ e => by cases e
+    refine ⟨inv_preserved never d k w w' r _ hng hi h, v_preserved never d k w w' r _ hng hv h, ?_, ?_⟩
+    · simp only [applyOp] at h
+      split at h
+      · cases h; exact hg
+      · simp only [Option.map_eq_some_iff] at h
+        obtain ⟨w1, hf, he⟩ := h; cases he
+        simp only [managerPulse] at hf
+        split at hf
+        · intro n acts ha
+          rw [(pulse_gq never d k).1 w _ root now hf] at ha
+          exact hg n acts ha
+        · cases hf; exact hg
+    · simp only [applyOp] at h
+      split at h
+      · cases h; exact hp
+      · simp only [Option.map_eq_some_iff] at h
+        obtain ⟨w1, hf, he⟩ := h; cases he
+        simp only [managerPulse] at hf
+        split at hf
+        · exact ((pulse_keep never d k).1 w _ root now hp hf).1
+        · cases hf; exact hp
+  | attach c p =>
+    have hng : ∀ r n, Op.attach c p ≠ .gpt r n := fun _ _ e => by cases e
+    refine ⟨inv_preserved never d k w w' r _ hng hi h, v_preserved never d k w w' r _ hng hv h, ?_, ?_⟩ <;>
+    · simp only [applyOp] at h
+      split at h
+      · cases h; assumption
+      · simp only [Option.map_eq_some_iff] at h
+        obtain ⟨f', _, he⟩ := h; cases he; assumption
+  | detach c =>
+    have hng : ∀ r n, Op.detach c ≠ .gpt r n := fun _ _ e => by cases e
+    refine ⟨inv_preserved never d k w w' r _ hng hi h, v_preserved never d k w w' r _ hng hv h, ?_, ?_⟩ <;>
+    · simp only [applyOp, Option.map_eq_some_iff] at h
+      obtain ⟨f', _, he⟩ := h; cases he; assumption
+  | inval c clear =>
+    have hng : ∀ r n, Op.inval c clear ≠ .gpt r n := fun _ _ e => by cases e
+    refine ⟨inv_preserved never d k w w' r _ hng hi h, v_preserved never d k w w' r _ hng hv h, ?_, ?_⟩ <;>
+    · simp only [applyOp, Option.map_eq_some_iff] at h
+      obtain ⟨f', _, he⟩ := h; cases he; assumption
+  | setReq c t =>
+    have hng : ∀ r n, Op.setReq c t ≠ .gpt r n := fun _ _ e => by cases e
+    refine ⟨inv_preserved never d k w w' r _ hng hi h, v_preserved never d k w w' r _ hng hv h, ?_, ?_⟩ <;>
+    · simp only [applyOp] at h; cases h; assumption
+  | destroy c =>
+    have hng : ∀ r n, Op.destroy c ≠ .gpt r n := fun _ _ e => by cases e
+    refine ⟨inv_preserved never d k w w' r _ hng hi h, v_preserved never d k w w' r _ hng hv h, ?_, ?_⟩
+    · simp only [applyOp, Option.map_eq_some_iff] at h
+      obtain ⟨f', _, he⟩ := h; cases he
+      intro n acts ha
+      simp only [updF] at ha
+      by_cases hn : n = c
+      · simp [hn] at ha
+      · simp only [hn, if_false] at ha; exact hg n acts ha
+    · simp only [applyOp, Option.map_eq_some_iff] at h
+      obtain ⟨f', _, he⟩ := h; cases he
+      intro n acts ha
+      simp only [updF] at ha
+      by_cases hn : n = c
+      · simp [hn] at ha
+      · simp only [hn, if_false] at ha; exact hp n acts ha
+  | script g c acts =>
+    have hng : ∀ r n, Op.script g c acts ≠ .gpt r n := fun _ _ e => by cases e
+    have hq := ho g c acts rfl
+    refine ⟨inv_preserved never d k w w' r _ hng hi h, v_preserved never d k w w' r _ hng hv h, ?_, ?_⟩
+    · cases g
+      · simp only [applyOp] at h; cases h; exact hg
+      · simp only [applyOp] at h; cases h
+        intro n l hl
+        simp only [updF] at hl
+        by_cases hn : n = c
+        · subst hn
+          simp only [if_true] at hl
+          rcases List.mem_append.mp hl with hl | hl
+          · exact hg n l hl
+          · have : l = acts := by simpa using hl
+            subst this; exact hq
+        · simp only [hn, if_false] at hl; exact hg n l hl
+    · cases g
+      · simp only [applyOp] at h; cases h
+        intro n l hl
+        simp only [updF] at hl
+        by_cases hn : n = c
+        · subst hn
+          simp only [if_true] at hl
+          rcases List.mem_append.mp hl with hl | hl
+          · exact hp n l hl
+          · have : l = acts := by simpa using hl
+            subst this; exact hq
+        · simp only [hn, if_false] at hl; exact hp n l hl
+      · simp only [applyOp] at h; cases h; exact hp
+
+theorem inv_v_history_quiet_from (never d k : Nat) : ∀ (ops : List Op) (w w' : World), QuietOps ops →
+    (Inv never w.f ∧ V w.f ∧ GQuiet w ∧ PQuiet w) → runOps never d k w ops = some w' →
+    Inv never w'.f ∧ V w'.f ∧ GQuiet w' ∧ PQuiet w' := by
+  intro ops
+  induction ops with
+  | nil => intro w w' _ hQ h; simp [runOps] at h; subst h; exact hQ
+  | cons o r ih =>
+    intro w w' hq hQ h
+    simp only [runOps] at h
+    split at h
+    · rename_i w1 r1 h1
+      exact ih w1 w' (fun o' ho' => hq o' (List.mem_cons_of_mem _ ho'))
+        (quiet_step never d k w w1 r1 o hQ (hq o (by simp)) h1) h
+    · cases h
+
+/-- every state reached from the initial state by a quiet history — `gpt` and `pulse` operations INCLUDED — satisfies the tree invariant
+    and the flagging invariant, and both script queues are quiet -/
+theorem inv_v_history_quiet (never d k : Nat) (ops : List Op) (w : World) (hq : QuietOps ops)
+    (h : runOps never d k (World.init never) ops = some w) :
+    Inv never w.f ∧ V w.f ∧ GQuiet w ∧ PQuiet w :=
+  inv_v_history_quiet_from never d k ops _ w hq
+    ⟨inv_init never, v_init never, fun n acts ha => by simp [World.init] at ha, fun n acts ha => by simp [World.init] at ha⟩ h
+
+/-- after ANY quiet history every recalculation sweep from a root reports the exact minimum of the requested times of the attached nodes
+    (`never` if none): no hypothesis about the state is left -/
+theorem wakeup_is_min_quiet_history (never d k k2 : Nat) (ops : List Op) (w w' : World) (root now m : Nat)
+    (hq : QuietOps ops) (hreach : runOps never d k (World.init never) ops = some w)
+    (h : managerGpt never d (k2+1) w root now = some (w', m)) (hroot : (w.f root).parent = none) :
+    (∀ n, Desc w'.f root n → m ≤ (w'.f n).myTime) ∧
+    (m = never ∨ ∃ n, Desc w'.f root n ∧ (w'.f n).myTime = m) := by
+  obtain ⟨hi, hv, hg, _⟩ := inv_v_history_quiet never d k ops w hq hreach
+  exact wakeup_is_min_reachable never d k k2 ops w w' root now m hreach h hi hv hg hroot
+
+/-- after ANY quiet history both sweeps terminate: there is a `B` such that for every `d > B` the pulse sweep on any node and the
+    recalculation sweep from any root complete with all sufficiently large fuels `k` -/
+theorem sweeps_terminate_quiet_history (never d0 k0 : Nat) (ops : List Op) (w : World)
+    (hq : QuietOps ops) (hreach : runOps never d0 k0 (World.init never) ops = some w) :
+    ∃ B, ∀ d, B < d →
+      (∀ root t, ∃ k, ∀ k', k ≤ k' → ∃ w', managerPulse never d k' w root t = some w') ∧
+      (∀ root now, (w.f root).parent = none →
+        ∃ k, ∀ k', k ≤ k' → ∃ res, managerGpt never d k' w root now = some res) := by
+  obtain ⟨hi, hv, hg, hp⟩ := inv_v_history_quiet never d0 k0 ops w hq hreach
+  obtain ⟨B, hB⟩ := sweeps_terminate_reachable never d0 k0 ops w hreach hi hv
+  exact ⟨B, fun d hd => ⟨(hB d hd).1 hp, (hB d hd).2 hg⟩⟩
+
+/-- non-vacuity: a quiet history with two `gpt` operations and a `pulse` in between; it is quiet, it reaches a state, and in that state
+    the theorems above apply -/
+def quietSample : List Op :=
+  [.attach 1 0, .attach 2 1, .setReq 0 50, .setReq 1 40, .setReq 2 30, .script false 2 [.setReq 2 90],
+   .gpt 0 10, .pulse 0 35, .gpt 0 35]
+
+example : QuietOps quietSample := by
+  intro o ho g c acts he a ha
+  subst he
+  simp [quietSample] at ho
+  obtain ⟨_, _, rfl⟩ := ho
+  simp at ha
+  subst ha
+  rfl
+
+example : (runOps 1000 8 40 (World.init 1000) quietSample).map (·.log) =
+    some [.G 0 10 1000 50, .G 1 10 1000 40, .G 2 10 1000 30, .P 2 35 30, .G 2 35 30 90] := by decide +kernel
 
 /-! ### necessity witnesses for the disciplines of the statements that are still partial or conditional -/
 
